@@ -16,10 +16,13 @@
      |                 ....  padding filler  | count |                   ← only if P
 
   RFC 8285: profile 0xBEDE → one-byte elements `| ID:4 | len-1:4 | data |`, ID 0 = one pad byte,
-  ID 15 reserved (a receiver stops processing the extension there, the packet stays valid);
-  profile 0x1000 → two-byte elements `| ID:8 | len:8 | data |`, ID 0 = one pad byte.  Pad bytes
-  may stand before, between and after elements; the block is filled with pad bytes up to the
-  next 32-bit boundary.  Any other profile: RFC 3550 opaque block of whole words.
+  ID 15 reserved: "its length field MUST be ignored, processing of the entire extension MUST
+  terminate at that point, and only the extension elements present prior to the element with
+  ID 15 SHOULD be considered" — the packet stays valid, whatever follows in the block is ignored;
+  profile 0x100 ‖ appbits → two-byte elements `| ID:8 | len:8 | data |`, ID 0 = one pad byte;
+  the 4 appbits "SHOULD be set to all 0s by the sender and MUST be ignored by the receiver".
+  Pad bytes may stand before, between and after elements; the block is filled with pad bytes up
+  to the next 32-bit boundary.  Any other profile: RFC 3550 opaque block of whole words.
 
   Bit fields are laid out by arithmetic on naturals (`v·64 + P·32 + X·16 + CC`), multi-byte
   fields by the shared big-endian codecs of Rtp/Go/Prim.lean.
@@ -37,9 +40,13 @@ inductive Item where
 
 /-- the three forms of the header extension block -/
 inductive ExtBlock where
-  | oneByte (items : List Item)                   -- profile 0xBEDE
-  | twoByte (items : List Item)                   -- profile 0x1000
-  | legacy (profile : UInt16) (words : Bytes)     -- RFC 3550 §5.3.1, any other profile
+  /-- profile 0xBEDE.  `stop = some (n, rest)`: after the items stands a byte with the reserved
+      id 15 (low nibble `n`, to be ignored) followed by arbitrary bytes `rest`, all ignored -/
+  | oneByte (items : List Item) (stop : Option (UInt8 × Bytes))
+  /-- profile 0x100 ‖ appbits -/
+  | twoByte (appbits : UInt8) (items : List Item)
+  /-- RFC 3550 §5.3.1, any other profile -/
+  | legacy (profile : UInt16) (words : Bytes)
   deriving DecidableEq, Repr, Inhabited
 
 /-- description of one RTP packet as a sender composes it -/
@@ -72,15 +79,20 @@ def Item.enc2 : Item → Bytes
 def body1 (items : List Item) : Bytes := (items.map Item.enc1).flatten
 def body2 (items : List Item) : Bytes := (items.map Item.enc2).flatten
 
+/-- the reserved-id byte and what follows it -/
+def stopBytes : Option (UInt8 × Bytes) → Bytes
+  | none => []
+  | some (n, rest) => (15 * 16 + n.toNat).toUInt8 :: rest
+
 def ExtBlock.profile : ExtBlock → UInt16
-  | .oneByte _ => 0xBEDE
-  | .twoByte _ => 0x1000
+  | .oneByte _ _ => 0xBEDE
+  | .twoByte a _ => (0x1000 + a.toNat).toUInt16
   | .legacy p _ => p
 
 /-- the block's content without the alignment pads -/
 def ExtBlock.body : ExtBlock → Bytes
-  | .oneByte items => body1 items
-  | .twoByte items => body2 items
+  | .oneByte items stop => body1 items ++ stopBytes stop
+  | .twoByte _ items => body2 items
   | .legacy _ ws => ws
 
 /-- pad bytes needed to reach the next 32-bit boundary -/
@@ -111,23 +123,16 @@ def Wire.extEnd (w : Wire) : Nat := 12 + 4 * w.csrc.length + (encodeExt w.ext).l
 
 /-! ### what a receiver has to decode -/
 
-def Item.isReserved : Item → Bool
-  | .elem id _ => id == 15
-  | .pad => false
-
 /-- the elements in order, pads dropped -/
 def elems : List Item → List Ext
   | [] => []
   | .pad :: r => elems r
   | .elem id d :: r => { id := id, payload := d } :: elems r
 
-/-- RFC 8285 §4.2: processing of a one-byte block ends at the first element with ID 15; only
-    the elements before it are considered -/
-def elems1 (items : List Item) : List Ext := elems (items.takeWhile (!·.isReserved))
-
+/-- the elements a receiver considers (RFC 8285 §4.2: those in front of a reserved id) -/
 def ExtBlock.elements : ExtBlock → List Ext
-  | .oneByte items => elems1 items
-  | .twoByte items => elems items
+  | .oneByte items _ => elems items
+  | .twoByte _ items => elems items
   | .legacy _ ws => [{ id := 0, payload := ws }]
 
 def Wire.toPacket (w : Wire) : Packet :=
@@ -143,7 +148,7 @@ def Wire.toPacket (w : Wire) : Packet :=
 
 def Item.wf1 : Item → Bool
   | .pad => true
-  | .elem id d => 1 ≤ id.toNat && id.toNat ≤ 15 && 1 ≤ d.length && d.length ≤ 16
+  | .elem id d => 1 ≤ id.toNat && id.toNat ≤ 14 && 1 ≤ d.length && d.length ≤ 16
 
 def Item.wf2 : Item → Bool
   | .pad => true
@@ -152,14 +157,29 @@ def Item.wf2 : Item → Bool
 /-- the 16-bit length field counts 32-bit words -/
 def maxBody : Nat := 65535 * 4
 
+def stopWF : Option (UInt8 × Bytes) → Bool
+  | none => true
+  | some (n, _) => n.toNat < 16
+
 def ExtBlock.WF : ExtBlock → Bool
-  | .oneByte items => items.all Item.wf1 && (body1 items).length ≤ maxBody
-  | .twoByte items => items.all Item.wf2 && (body2 items).length ≤ maxBody
-  | .legacy p ws => p != 0xBEDE && p != 0x1000 && ws.length % 4 == 0 && ws.length ≤ maxBody
+  | .oneByte items stop => items.all Item.wf1 && stopWF stop && (body1 items ++ stopBytes stop).length ≤ maxBody
+  | .twoByte a items => a.toNat < 16 && items.all Item.wf2 && (body2 items).length ≤ maxBody
+  | .legacy p ws => p != 0xBEDE && (p &&& 0xFFF0) != 0x1000 && ws.length % 4 == 0 && ws.length ≤ maxBody
 
 /-- a one-byte block that uses the reserved ID 15 (a sender MUST NOT; a receiver stops there) -/
 def ExtBlock.reserved : ExtBlock → Bool
-  | .oneByte items => items.any Item.isReserved
+  | .oneByte _ stop => stop.isSome
+  | _ => false
+
+/-- number of block bytes a receiver ignores: everything after the reserved-id byte, alignment
+    pads included -/
+def ExtBlock.ignored : ExtBlock → Nat
+  | .oneByte items (some (n, rest)) => rest.length + padTo4 (body1 items ++ stopBytes (some (n, rest))).length
+  | _ => 0
+
+/-- a two-byte block whose application bits are not all zero -/
+def ExtBlock.appbits : ExtBlock → Bool
+  | .twoByte a _ => a != 0
   | _ => false
 
 /-- a packet a conforming receiver must accept -/
@@ -171,13 +191,19 @@ def Wire.WF (w : Wire) : Bool :=
 def Wire.reserved (w : Wire) : Bool :=
   match w.ext with | some b => b.reserved | none => false
 
+def Wire.ignored (w : Wire) : Nat :=
+  match w.ext with | some b => b.ignored | none => 0
+
+def Wire.appbits (w : Wire) : Bool :=
+  match w.ext with | some b => b.appbits | none => false
+
 def noPads (items : List Item) : Bool := items.all (· != .pad)
 
 /-- the layout an encoder that never writes optional bytes produces: no pad bytes except the
-    final alignment, zero filler in the RTP padding, no reserved ID -/
+    final alignment, zero filler in the RTP padding, no reserved ID, zero appbits -/
 def ExtBlock.canonical : ExtBlock → Bool
-  | .oneByte items => noPads items && !items.any Item.isReserved
-  | .twoByte items => noPads items
+  | .oneByte items stop => noPads items && stop.isNone
+  | .twoByte a items => a == 0 && noPads items
   | .legacy _ _ => true
 
 def Wire.canonical (w : Wire) : Bool :=
@@ -194,10 +220,11 @@ def ExtBlock.ids (b : ExtBlock) : List UInt8 := b.elements.map (·.id)
 def ExtBlock.lookup (b : ExtBlock) (id : UInt8) : Option Bytes :=
   (b.elements.find? (·.id == id)).map (·.payload)
 
-/-- does an element with this id stand anywhere in the block (considered or not) -/
+/-- may an element with this id stand anywhere in the block (considered or not)?  Behind a
+    reserved id anything may stand. -/
 def ExtBlock.mentions : ExtBlock → UInt8 → Bool
-  | .oneByte items, id => (elems items).any (·.id == id)
-  | .twoByte items, id => (elems items).any (·.id == id)
+  | .oneByte items stop, id => stop.isSome || (elems items).any (·.id == id)
+  | .twoByte _ items, id => (elems items).any (·.id == id)
   | .legacy _ _, id => id == 0
 
 end Rtp.Spec.Wire
